@@ -106,6 +106,7 @@ def run(run, tier, replay=None):
     enum_scope_corr(run, tier, [c for c in scope_replay if c.get("scope") in ("decls", "enumdoc")] if scope_replay is not None else None)
     tree_oracle(run, tier, [c for c in scope_replay if c.get("scope") == "tree"] if scope_replay is not None else None)
     params2_corr(run, tier, [c for c in scope_replay if c.get("scope") == "params2"] if scope_replay is not None else None)
+    literal_scope_corr(run, tier, [c for c in scope_replay if c.get("scope") in ("ldecls", "litdoc")] if scope_replay is not None else None)
     procprops_corr(run, tier, pp_replay)
     if not replay:
         scopes(run, tier)
@@ -917,6 +918,202 @@ def params2_corr(run, tier, replay_cases=None):
         if sorted(args) != sorted(want):
             run.violation("oracle", {"scope_case": case, "signature": args, "python_names": want,
                                      "note": "_get_kwargs of the generated module does not take exactly the python names the two add_parameters calls produce for this split"})
+
+
+# ------------------------------------------------------------------ the class-name scope under literal_enums: true (Scopes.model_decls_lit)
+HDR4 = HDR3 + """
+Definition vals_same (t : list (str * evalue)) (obs : list evalue) := Nat.eqb (length t) (length obs) && forallb (fun v => existsb (fun kv => evalue_eqb (snd kv) v) t) obs.
+Definition lent_same (a : str * centry) (b : str * option (list evalue)) := eqf (fst a) (fst b) &&
+  match snd a, snd b with CModel, None => true | CEnum t, Some o => vals_same t o | _, _ => false end.
+Definition ldecls_ok (ds : list cdecl) (t' : list (str * option (list evalue))) (e' : list cdecl) := match model_decls_lit fp ds with
+  | None => false
+  | Some (t, e) => Nat.eqb (length t) (length t') && forallb (fun p => lent_same (fst p) (snd p)) (combine t t') && errs_ok e e' end.
+"""
+LIT_BASES = [["x", "y", "z"], ["on", "off"], [1, 2, 3], ["a b", "c"], ["1", "2"], [0, 1]]
+_CFG_LIT = None
+
+
+def _cfg_lit():
+    global _CFG_LIT
+    if _CFG_LIT is None:
+        import tempfile, pathlib, shutil
+        d = pathlib.Path(tempfile.mkdtemp(prefix="opc_c09_"))
+        try:
+            _CFG_LIT = impl.make_config(d / "doc.json", d / "out", cfg={"literal_enums": True})
+        finally:
+            shutil.rmtree(d, ignore_errors=True)
+    return _CFG_LIT
+
+
+def _set_variant(rng, base):
+    """equal (permuted) / proper subset / superset / overlapping / disjoint value sets, same or other value type."""
+    new = ["w", "q"] if isinstance(base[0], str) else [7, 9]
+    mode = rng.choice(["equal", "perm", "subset", "subset", "superset", "overlap", "disjoint", "othertype"])
+    if mode == "equal":
+        return list(base)
+    if mode == "perm":
+        b = list(base); rng.shuffle(b); return b
+    if mode == "subset":
+        k = rng.randint(1, max(1, len(base) - 1))
+        return rng.sample(base, k)
+    if mode == "superset":
+        return list(base) + [new[0]]
+    if mode == "overlap":
+        return [base[0], new[1]]
+    if mode == "disjoint":
+        return list(new)
+    return [str(v) for v in base] if not isinstance(base[0], str) else list(range(len(base)))
+
+
+def gen_ldecls(rng):
+    words = rng.choice(CLS_BASES)
+    base = rng.choice(LIT_BASES)
+    out = []
+    for _ in range(rng.randint(2, 5)):
+        r = rng.random()
+        vs = _set_variant(rng, base) if out else list(base)
+        if r < 0.12:
+            out.append(("model", _cls_variant(rng, words)))
+        elif r < 0.45:
+            out.append(("enum", words[0].capitalize(), rng.choice([words[1], words[1].capitalize()]), vs))
+        else:
+            out.append(("enum", "", _cls_variant(rng, words), vs))
+    if rng.random() < 0.5:
+        out.reverse()
+    return out
+
+
+def real_ldecls(decls):
+    from openapi_python_client import schema as oai
+    from openapi_python_client.parser.properties import property_from_data, Schemas, LiteralEnumProperty, ModelProperty
+    from openapi_python_client.parser.errors import ParseError
+    schemas = Schemas()
+    errs = []
+    for d in decls:
+        data = oai.Schema.model_validate({"type": "object"} if d[0] == "model" else {"enum": list(d[3])})
+        name, parent = (d[1], "") if d[0] == "model" else (d[2], d[1])
+        p, schemas = property_from_data(name=name, required=True, data=data, schemas=schemas, parent_name=parent, config=_cfg_lit(), process_properties=True, roots={"root"})
+        if isinstance(p, ParseError):
+            errs.append(d)
+    tab = []
+    for c, prop in schemas.classes_by_name.items():
+        if isinstance(prop, LiteralEnumProperty):
+            tab.append((str(c), sorted(prop.values, key=repr)))
+        elif isinstance(prop, ModelProperty):
+            tab.append((str(c), None))
+        else:
+            tab.append((str(c), "other:" + type(prop).__name__))
+    return tab, errs
+
+
+def gen_lit_doc(rng):
+    """Component enums, a holder model with an inline enum property and an operation with an enum PARAMETER, all deriving one class name."""
+    a, b = rng.choice([("a", "b_c"), ("item", "kind"), ("foo", "bar")])
+    base = rng.choice(LIT_BASES)
+    cls_words = [a] + b.split("_")
+    comps, k = {}, 0
+    if rng.random() < 0.7:
+        comps[a.capitalize()] = {"type": "object", "description": "holder", "properties": {b: {"enum": list(base), "description": "inline"}}}
+    for _ in range(rng.randint(0, 2)):
+        nm = rng.choice(["_", "-", " ", ""]).join(rng.choice([w, w.capitalize()]) for w in cls_words)
+        if nm not in comps:
+            comps[nm] = {"enum": _set_variant(rng, base), "description": str(k)}
+            k += 1
+    if rng.random() < 0.5:
+        # a second holder whose class name + property name derive the same class: AB{c} vs A{b_c}
+        h2 = "".join(w.capitalize() for w in cls_words[:-1])
+        if h2 not in comps and len(cls_words) > 2:
+            comps[h2] = {"type": "object", "description": "holder2", "properties": {cls_words[-1]: {"enum": _set_variant(rng, base), "description": "inline2"}}}
+    paths = {}
+    if rng.random() < 0.6:
+        opid = "".join(w.capitalize() for w in cls_words[:-1]) if len(cls_words) > 2 else a
+        paths["/p"] = {"get": {"operationId": opid, "parameters": [{"name": cls_words[-1] if len(cls_words) > 2 else b, "in": "query", "required": True,
+                                                                     "schema": {"enum": _set_variant(rng, base), "description": "param"}}],
+                               "responses": {"200": {"description": "ok"}}}}
+    if rng.random() < 0.5:
+        comps = dict(reversed(list(comps.items())))
+    return impl.base_doc(paths=paths, components={"schemas": comps})
+
+
+def literal_scope_corr(run, tier, replay_cases=None):
+    from lib.vals import cevalue
+    rng = run.rng
+    n = 250 if tier == "quick" else 3000
+    m = 100 if tier == "quick" else 1000
+    dcases, docs = [], []
+    if replay_cases is not None:
+        for c in replay_cases:
+            (dcases if c["scope"] == "ldecls" else docs).append([tuple(x) for x in c["input"]] if c["scope"] == "ldecls" else c["input"])
+    else:
+        dcases += [[("enum", "A", "b_c", ["x", "y"]), ("enum", "AB", "c", ["x"])], [("enum", "AB", "c", ["x"]), ("enum", "A", "b_c", ["x", "y"])],
+                   [("enum", "", "ABC", ["x", "y"]), ("enum", "", "a_b_c", ["y", "x"])], [("enum", "", "ABC", [1, 2]), ("enum", "", "a_b_c", ["1", "2"])],
+                   [("model", "ABC"), ("enum", "A", "b_c", ["x"])], [("enum", "", "ABC", ["x", "y"]), ("enum", "", "a_b_c", ["x", "q"]), ("model", "A-B-C")]]
+        dcases += [gen_ldecls(rng) for _ in range(n)]
+        docs += [impl.base_doc(components={"schemas": {"A": {"type": "object", "description": "holder", "properties": {"b_c": {"enum": ["x", "y"], "description": "inline"}}},
+                                                       "AB": {"type": "object", "description": "holder2", "properties": {"c": {"enum": ["x"], "description": "inline2"}}}}})]
+        docs += [gen_lit_doc(rng) for _ in range(m)]
+    terms, meta = [], []
+    for decls in dcases:
+        tab, errs = real_ldecls(decls)
+        case = {"scope": "ldecls", "input": [list(d) for d in decls]}
+        run.note_case({**case, "impl": (tab, errs)}, nontrivial=True, kind="scope-ldecls" + ("/reported" if errs else ""))
+        if any(isinstance(e, str) for _, e in tab):
+            run.violation("correspondence", {"scope_case": case, "impl": tab, "note": "unexpected entry kind in classes_by_name under literal_enums"})
+            continue
+        tt = "[" + "; ".join(f"({cstr(c)}, " + ("None" if e is None else "Some [" + "; ".join(cevalue(v) for v in e) + "]") + ")" for c, e in tab) + "]" if tab else "(@nil (str * option (list evalue)))"
+        ee = "[" + "; ".join(cdecl(d) for d in errs) + "]" if errs else "(@nil cdecl)"
+        dd = "[" + "; ".join(cdecl(d) for d in decls) + "]"
+        terms.append(f"ldecls_ok {dd} {tt} {ee}")
+        meta.append((case, (tab, errs), dd))
+        _literal_oracle(run, case, [d[3] for d in decls if d[0] == "enum"], [d[3] for d in decls if d[0] == "enum" and d not in errs], [(c, e) for c, e in tab if e is not None])
+    bad = run_cases(HDR4, terms, shard=120)
+    run.corr["cases"] += len(terms)
+    run.corr["mismatches"] += len(bad)
+    run.corr["what"] += "; classes_by_name after a sequence of real property_from_data calls under literal_enums: true (LiteralEnumProperty.build) == Scopes.model_decls_lit (value sets)"
+    for i in bad[:10]:
+        case, got, dd = meta[i]
+        model = coq_eval(HDR4, f"model_decls_lit fp {dd}")
+        run.violation("correspondence", {"scope_case": case, "impl": got, "model": model[-500:],
+                                         "note": "LiteralEnumProperty.build's class-name guard (equal value set shared, different set / enum vs model reported) no longer computes Scopes.model_decls_lit"})
+    # documents through GeneratorData.from_dict with literal_enums: true: oracle only (inline x component x parameter)
+    for doc in docs:
+        case = {"scope": "litdoc", "input": doc}
+        data, _ = impl.parse_doc(doc, cfg={"literal_enums": True})
+        run.note_case(case, nontrivial=True, kind="scope-litdoc")
+        if not hasattr(data, "models"):
+            run.violation("oracle", {"scope_case": case, "note": "document rejected", "error": str(data)})
+            continue
+        classes = [(str(e.class_info.name), sorted(e.values, key=repr)) for e in data.enums if isinstance(getattr(e, "values", None), (set, frozenset))]
+        reported = {getattr(e.data, "description", None) for e in data.errors}
+        removed = " ".join(str(e.detail) for e in data.errors)
+        declared = []
+        for nm, sch in doc["components"]["schemas"].items():
+            if "enum" in sch:
+                declared.append((sch["enum"], sch["description"] in reported))
+            for pn, ps in (sch.get("properties") or {}).items():
+                if "enum" in ps:
+                    declared.append((ps["enum"], ps["description"] in reported or f"/components/schemas/{nm}" in removed))
+        eps = [e for c in data.endpoint_collections_by_tag.values() for e in c.endpoints]
+        perr = [e for c in data.endpoint_collections_by_tag.values() for e in c.parse_errors]
+        for p in doc["paths"].values():
+            for prm in p["get"].get("parameters", []):
+                declared.append((prm["schema"]["enum"], not eps and bool(perr)))
+        _literal_oracle(run, case, [vs for vs, _ in declared], [vs for vs, rep in declared if not rep], classes)
+
+
+def _literal_oracle(run, case, all_lists, unreported_lists, classes):
+    """Every generated Literal alias holds exactly the value set of one declared list; every unreported declaration is represented."""
+    def key(vs):
+        return sorted({(type(v).__name__, v) for v in vs}, key=repr)
+    want = [key(vs) for vs in all_lists]
+    have = [key(e) for _, e in classes]
+    for (c, e), h in zip(classes, have):
+        if h not in want:
+            run.violation("oracle", {"scope_case": case, "class": c, "values": e, "declared": all_lists, "note": "a generated Literal alias holds a value set that is not exactly one declared value list"})
+    for vs in unreported_lists:
+        if key(vs) not in have:
+            run.violation("oracle", {"scope_case": case, "declared": vs, "classes": classes,
+                                     "note": "a declared enum is neither reported nor represented by a Literal alias with exactly its values: silently replaced by another enum of the same class name"})
 
 
 # ------------------------------------------------------------------ generated trees: module / package names
